@@ -18,7 +18,7 @@ class LengthGFA1:
     --------
     try_get_length
     """
-    if self.LN:
+    if self.LN is not None:
       return self.LN
     elif not gfapy.is_placeholder(self.sequence):
       return len(self.sequence)
